@@ -312,6 +312,9 @@ def check_case(case):
                     add('C07|hang|%s|%s' % (drv, label[0]), '%s did not terminate within %d s' % (drv, HORIZON))
                 elif st.startswith('raised') and changed:
                     add('C07|failed-run-touched-outputs|%s' % drv, '%s failed (%s) but created/modified %r' % (drv, st, changed))
+                elif st == 'ok' and case.get('matlab_must_reject') and drv in MATLAB_DRIVERS:
+                    add('C07|validation-error-not-raised|%s|%s' % (drv, label[0].split('/')[1] if '/' in label[0] else label[0]),
+                        '%s completed on an input whose defaulted parameters are not trailing (%s) and wrote %r' % (drv, label[0], changed))
                 elif st == 'ok' and tree is None:
                     add('C07|rejected-by-parser-but-driver-succeeded|%s' % drv,
                         'Module.parseString rejects this input (%s) but %s completed and wrote %r' % (status, drv, changed))
@@ -403,9 +406,28 @@ VALIDATION = {
     'binary-operator-two-args': 'class A { A operator + ( const A & a , const A & b ) const ; } ;',
     'unary-operator-not-plus-minus': 'class A { A operator * ( ) const ; } ;',
     'operator-mixed-types': 'class A { A operator + ( const B & b ) const ; } ;',
-    'non-trailing-default': 'class A { A ( ) ; void f ( int a = 1 , int b ) ; } ;',
-    'non-trailing-default-function': 'void f ( int a = 1 , int b ) ;',
 }
+
+
+def _non_trailing_masks():
+    """Every default mask of 2..4 parameters in which a defaulted parameter precedes a plain one, on a method, a
+    constructor and a free function: the MATLAB generator must reject these loudly (it cannot express them)."""
+    import itertools as it
+    out = {}
+    for n in (2, 3, 4):
+        for mask in it.product((0, 1), repeat=n):
+            if not any(mask[i] and not mask[j] for i in range(n) for j in range(i + 1, n)):
+                continue
+            params = ' , '.join('int %s%s' % ('abcd'[i], ' = %d' % (i + 1) if mask[i] else '') for i in range(n))
+            key = ''.join(map(str, mask))
+            out['non-trailing-default/method/' + key] = 'class A { A ( ) ; void f ( %s ) ; } ;' % params
+            out['non-trailing-default/ctor/' + key] = 'class A { A ( %s ) ; } ;' % params
+            out['non-trailing-default/function/' + key] = 'void f ( %s ) ;' % params
+    return out
+
+
+VALIDATION.update(_non_trailing_masks())
+MATLAB_DRIVERS = ('matlab.wrap', 'script.matlab')
 
 
 def replay(case):
@@ -438,7 +460,8 @@ def run(ctx):
                     cases.append({'seed': name, 'label': [l1[0] + '+' + l2[0], l1[1], l2[1]], 'toks': t2})
         fx = os.path.join(os.environ.get('VERIF_REPO', '/repo'), 'tests', 'fixtures')
     for vname, text in VALIDATION.items():
-        cases.append({'seed': 'validation', 'label': [vname, 0], 'toks': text.split(), 'drivers': DRIVERS})
+        cases.append({'seed': 'validation', 'label': [vname, 0], 'toks': text.split(), 'drivers': DRIVERS,
+                      'matlab_must_reject': vname.startswith('non-trailing-default')})
     res = ctx.map(check_case, cases)
     rejected = [c for c, r in res if str(r.get('status', '')).startswith('rejected')]
     accepted = sum(1 for c, r in res if r.get('status') == 'accepted')
